@@ -149,6 +149,12 @@ class PbnParser(Parser):
         if len(self.tag_pair_buffer) != 0:
             yield self.parse_board()
 
+            # the last game is delivered: nothing of this stream is carried
+            # over to the next one parsed with the same parser
+            self.tag_pair_buffer = list()
+            self.comment_list = list()
+            self.comment_buffer = list()
+
     # TODO: Consider type not IO[str] but IO[AnyStr]
     def parse_all(self, fp: IO[str]) -> List[Dict[str, str]]:
         """Parses a PBN style stream at once.
